@@ -301,7 +301,7 @@ var redirectTable = map[string]string{
 	"tar_Writer_Close": "(*archive/tar.Writer).Close", "tar_Reader_Next": "(*archive/tar.Reader).Next", "io_Copy": "io.Copy",
 	"tar_Header_FileInfo": "(*archive/tar.Header).FileInfo",
 	"json_MarshalIndent": "encoding/json.MarshalIndent", "json_Unmarshal": "encoding/json.Unmarshal", "sha256_New": "crypto/sha256.New",
-	"hex_EncodeToString": "encoding/hex.EncodeToString", "dirhash_HashDir": "golang.org/x/mod/sumdb/dirhash.HashDir",
+	"hex_EncodeToString": "encoding/hex.EncodeToString", "dirhash_HashDir": "golang.org/x/mod/sumdb/dirhash.HashDir", "dirhash_Hash1": "golang.org/x/mod/sumdb/dirhash.Hash1",
 	"fmt_Sprintf": "fmt.Sprintf", "fmt_Errorf": "fmt.Errorf", "fmt_Fprintf": "fmt.Fprintf", "fmt_Sprint": "fmt.Sprint", "fmt_Fprintln": "fmt.Fprintln",
 	"sort_Slice": "sort.Slice", "sort_SliceStable": "sort.SliceStable",
 	"context_Background": "context.Background", "context_WithValue": "context.WithValue",
